@@ -36,16 +36,19 @@ SpecA ==
                      Tag("ts", TRef("C")), Tag("tu", TRef("K")), Tag("tt", TRef("P")),
                      Tag("tm", TMap(TRef("L")))>>)) @@
     ("V" :> DUnion("nsa", "U", FALSE, <<Tag("tw", TNull(TRef("U"))), Tag("tx", TVoid)>>)) @@
+    \* a third level: only the root of a chain of open unions owns the catch-all
+    ("V3" :> DUnion("nsa", "V", FALSE, <<Tag("ty", TVoid)>>)) @@
     ("W" :> DStruct("nsa", "", <<Fld("w1", TRef("U")), Fld("w2", TNull(TRef("V"))),
                                  Fld("w3", TNull(TRef("P"))),
                                  \* every evolving type also as list element and map value
                                  Fld("w4", TNull(TList(TRef("P"), Unset, 2))), Fld("w5", TNull(TMap(TRef("P")))),
-                                 Fld("w6", TNull(TList(TRef("U"), Unset, 2))), Fld("w7", TNull(TMap(TRef("C"))))>>,
+                                 Fld("w6", TNull(TList(TRef("U"), Unset, 2))), Fld("w7", TNull(TMap(TRef("C")))),
+                                 Fld("w8", TNull(TRef("V3")))>>,
                      <<>>, FALSE))
 
 Structs(sc) == {n \in DOMAIN sc : sc[n].k = "struct"}
 Unions(sc)  == {n \in DOMAIN sc : sc[n].k = "union"}
-RootNames == {"S", "C", "P", "U", "V", "W", "L", "K"}
+RootNames == {"S", "C", "P", "U", "V", "V3", "W", "L", "K"}
 
 \* ------------------------------------------------------------- edit actions
 NewFieldTypes == {TNull(Str13), TNull(TRef("L")), TNull(TList(I32b, Unset, 1))}
